@@ -612,8 +612,10 @@ Definition unroll_targets (qubits : list qarg) (count : nat) : M (list (list bit
 Definition update_depth_for_gate (targets : list (list bitref)) : M unit :=
   iterM depth_gate_subset targets.
 
+(* a boolean parameter is emitted as 0 / 1 *)
+Definition num_of_bool (v : pyval) : pyval := match v with VBool b => VInt (if b then 1 else 0) | _ => v end.
 Definition get_op_parameters (args : list expr) : M (list pyval) :=
-  mapMM (fun e => eval0 e false None) args.
+  mapMM (fun e => v <- eval0 e false None;; ret (num_of_bool v)) args.
 
 (* visitor._visit_basic_gate_operation *)
 Definition visit_basic_gate (name : string) (args : list expr) (qubits : list qarg) (inverse : bool)
@@ -800,7 +802,8 @@ Definition visit_generic_phase (mods : list gmod) (arg : expr) (qubits : list qa
   guard (n <? 10000) (EUnmodelled "huge power");;;
   if n <=? 0 then emit []
   else
-    v0 <- eval0 arg false None;;
+    v00 <- eval0 arg false None;;
+    let v0 := num_of_bool v00 in
     final <- (fix go (k : nat) (v : pyval) : M pyval :=
                 match k with
                 | O => ret v
